@@ -3,7 +3,7 @@
 Set Warnings "-ambiguous-paths,-notation-overridden".
 From Coq Require Import ZArith QArith Qreals Reals List Bool.
 From Gen Require Import GenThermo GenTraced.
-From P Require Import Expr Common BoundsDefs Bounds Tsat SatFacts Closed67.
+From P Require Import Expr Common BoundsDefs Bounds Tsat Regions SatFacts Closed67 Regions67.
 Import ListNotations.
 Close Scope Q_scope.
 Open Scope R_scope.
@@ -23,3 +23,14 @@ Theorem cowat_bounds_flag_exact_67 : forall t p : R,
   (~ cowat_in_range fn67 t p -> runR cowat_on_traced fn67 coef_cowat [t; p] = RNone).
 Proof. exact cowat_bounds_67. Qed.
 Print Assumptions cowat_bounds_flag_exact_67.
+
+(** the region classifiers of the two current sources, with THEIR OWN boundary functions, agree
+    for t <= 350 or t > Tc1_C at every pressure more than 0.2 % away from the IAPWS-97 saturation
+    pressure (t <= 350) / more than 0.05 % away from the IAPWS-97 B23 pressure (Tc1_C < t <= 590) *)
+Theorem regions_agree_67_97 : forall (coef67 coef97 : nat -> R) (t p : R),
+  t <= Q2R (350 # 1) \/ Q2R Tc1_C_Q < t ->
+  (Q2R d001 <= t -> t <= Q2R (350 # 1) -> 2 / 1000 * sat97 t < Rabs (p - sat97 t)) ->
+  (Q2R Tc1_C_Q < t -> t <= Q2R (590 # 1) -> 5 / 10000 * b23p97 t < Rabs (p - b23p97 t)) ->
+  region67 fn67 coef67 t p = region97 fn97 coef97 t p.
+Proof. exact regions_agree_67_97_proof. Qed.
+Print Assumptions regions_agree_67_97.
